@@ -18,6 +18,13 @@ Proof.
       split; [exact H1|]. split; [exact H2|]. destruct H3 as [H3|H3]; [right; left; symmetry; exact H3|right; right; exact H3].
 Qed.
 
+Lemma last_in (L : list key) : last L [] = [] \/ In (last L []) L.
+Proof.
+  induction L as [|a [|b L'] IH]; [left; reflexivity|right; left; reflexivity|].
+  change (last (a :: b :: L') []) with (last (b :: L') []).
+  destruct IH as [IH|IH]; [left; exact IH|right; right; exact IH].
+Qed.
+
 Section Reverse.
   Variables (ko : bool) (B : nat) (P U : list key).
   Hypothesis HB : (1 <= B)%nat.
@@ -27,7 +34,7 @@ Section Reverse.
 
   Lemma rev_step L R c :
     ksorted R -> (forall e, In e R -> fst e <> []) -> reverse c = true -> eof c = false ->
-    incl L P -> (forall e, In e R -> In (fst e) U) -> (next_end c <> [] \/ L = []) ->
+    incl L P -> (forall e, In e R -> In (fst e) U) ->
     exists ps c',
       get_data B L R c = GD ps c' /\ reverse c' = true /\ next_start c' = next_start c /\
       consume ko c' ps = (emit ko ps, false) /\
@@ -35,7 +42,7 @@ Section Reverse.
         ps ++ (if eof c' then [] else rev (filter (key_in (next_start c) (next_end c')) R)) /\
       (eof c' = false -> next_end c' <> [] /\ (mur c' < mur c)%nat).
   Proof.
-    intros Hs Hne Hrev Heof HL HU Hguard.
+    intros Hs Hne Hrev Heof HL HU.
     set (lo := next_start c) in *. set (ne := next_end c) in *.
     unfold get_data. destruct (no_rpc c) eqn:Enr.
     { (* the remaining range is empty: nothing is sent *)
@@ -50,16 +57,18 @@ Section Reverse.
     unfold no_rpc in Enr. rewrite Hrev in Enr. fold lo ne in Enr. cbn [andb] in Enr.
     unfold scan_req. rewrite Hrev. cbn [negb]. fold lo ne.
     set (loc := locate_end_key L ne). set (s := r_start loc). set (e := r_end loc).
+    assert (Hloc : (ne = [] /\ loc = mkRegion (last L []) []) \/ (ne <> [] /\ loc = locate_end_from [] L ne)).
+    { unfold loc, locate_end_key. destruct ne; cbn [is_nil]; [left; auto|right; split; [discriminate|reflexivity]]. }
     assert (FA : e = [] \/ (ne <> [] /\ kle ne e)).
-    { destruct Hguard as [Hg|Hg].
-      - destruct (locate_end_from_spec L [] ne (nil_lt ne Hg)) as (_ & H2 & _). fold (locate_end_key L ne) in H2. fold loc e in H2.
-        destruct H2; auto.
-      - left. unfold e, loc. rewrite Hg. reflexivity. }
-    assert (FB : s = [] \/ (ne <> [] /\ klt s ne /\ In s L)).
-    { destruct Hguard as [Hg|Hg].
-      - destruct (locate_end_from_spec L [] ne (nil_lt ne Hg)) as (H1 & _ & H3). fold (locate_end_key L ne) in H1, H3. fold loc s in H1, H3.
-        destruct H3 as [H3|H3]; [left; exact H3|right; auto].
-      - left. unfold s, loc. rewrite Hg. reflexivity. }
+    { destruct Hloc as [[Hn Hl]|[Hg Hl]].
+      - left. unfold e. rewrite Hl. reflexivity.
+      - destruct (locate_end_from_spec L [] ne (nil_lt ne Hg)) as (_ & H2 & _). rewrite <- Hl in H2. fold e in H2.
+        destruct H2; auto. }
+    assert (FB : s = [] \/ (In s L /\ (ne = [] \/ klt s ne))).
+    { destruct Hloc as [[Hn Hl]|[Hg Hl]].
+      - unfold s. rewrite Hl. cbn [r_start]. destruct (last_in L) as [H|H]; [left; exact H|right; split; [exact H|left; exact Hn]].
+      - destruct (locate_end_from_spec L [] ne (nil_lt ne Hg)) as (H1 & _ & H3). rewrite <- Hl in H1, H3. fold s in H1, H3.
+        destruct H3 as [H3|H3]; [left; exact H3|right; auto]. }
     set (rs := if is_nil lo || (negb (is_nil s) && kltb lo s) then s else lo).
     assert (Hrs1 : kle s rs /\ kle lo rs /\ (rs = s \/ rs = lo)).
     { unfold rs. destruct (is_nil lo) eqn:El; cbn [orb].
@@ -72,7 +81,7 @@ Section Reverse.
     { destruct ne as [|b ne'] eqn:Ene; [left; reflexivity|right]. rewrite <- Ene in *.
       assert (Hnn : ne <> []) by (rewrite Ene; discriminate).
       destruct Hrs3 as [Hr|Hr]; rewrite Hr.
-      - destruct FB as [FB|(_ & FB & _)]; [rewrite FB; apply nil_lt; exact Hnn|exact FB].
+      - destruct FB as [FB|(_ & [FB|FB])]; [rewrite FB; apply nil_lt; exact Hnn|congruence|exact FB].
       - destruct (is_nil lo) eqn:El; [apply is_nil_true in El; rewrite El; apply nil_lt; exact Hnn|].
         cbn [negb andb] in Enr. apply is_nil_false in Hnn. rewrite Hnn in Enr. cbn [negb andb] in Enr. kord. }
     unfold store_rscan. fold s e.
@@ -131,21 +140,23 @@ Section Reverse.
           destruct (is_nil lo) eqn:El.
           - apply is_nil_true in El. unfold rs in Hr. rewrite El in Hr. cbn [is_nil orb] in Hr. congruence.
           - cbn [negb andb] in Ee. rewrite Hr in Ee. kord. }
-        destruct FB as [FB|(FB1 & FB2 & FB3)]; [congruence|].
+        destruct FB as [FB|(FB3 & FB2)]; [congruence|].
+        assert (Hbs : forall k, klt k s \/ k = s -> below ne k = true).
+        { intros k Hk. apply below_spec. destruct FB2 as [FB2|FB2]; [left; exact FB2|right]. destruct Hk as [Hk| ->]; [KeyOT.order|exact FB2]. }
         split.
         * f_equal. f_equal. unfold Glow. apply filter_ext_in'. intros x _. unfold key_in, in_range.
           rewrite Hrss. unfold below at 2. apply is_nil_false in Es. rewrite Es.
           destruct (kltb (fst x) s) eqn:E1; [|rewrite !andb_false_r; reflexivity].
-          rewrite !andb_true_r. assert (Hb : below ne (fst x) = true) by (apply below_spec; right; kord).
+          rewrite !andb_true_r. assert (Hb : below ne (fst x) = true) by (apply Hbs; left; kord).
           rewrite Hb. apply andb_true_r.
         * intros _. split; [rewrite Hrss; exact Es|]. unfold mur. cbn [next_end]. fold ne. rewrite Hrss.
           apply Nat.add_lt_le_mono.
           -- apply (count_lt _ _ P s).
-             ++ intros p _ Hp. apply below_spec in Hp. apply below_spec. right. destruct Hp as [Hp|Hp]; [congruence|]. kord.
+             ++ intros p _ Hp. apply below_spec in Hp. destruct Hp as [Hp|Hp]; [congruence|]. apply Hbs. left. exact Hp.
              ++ apply HL; exact FB3.
-             ++ apply below_spec. right. exact FB2.
+             ++ apply Hbs. right. reflexivity.
              ++ apply below_false. split; [exact Es|KeyOT.order].
-          -- apply count_le. intros k _ Hk. apply below_spec in Hk. apply below_spec. right. destruct Hk as [Hk|Hk]; [congruence|]. kord.
+          -- apply count_le. intros k _ Hk. apply below_spec in Hk. destruct Hk as [Hk|Hk]; [congruence|]. apply Hbs. left. exact Hk.
     - (* full batch: continue below its last key *)
       apply Nat.ltb_ge in Elen.
       assert (Hlen : length (firstn B (rev F)) = B) by (pose proof (firstn_le_length B (rev F)); lia).
